@@ -18,7 +18,7 @@ import weakref
 
 from mc import env
 rpyc = env.install_sim()
-from mc import sched as S, simos, runner, refcodec as R, explore      # noqa: E402
+from mc import sched as S, simos, runner, refcodec as R, explore, canon      # noqa: E402
 import rpyc as _rpyc                                                   # noqa: E402
 from rpyc.core.channel import Channel                                  # noqa: E402
 from rpyc.core.stream import SocketStream                              # noqa: E402
@@ -96,12 +96,16 @@ class Ctx(object):
         self.csvc.conn_ref = weakref.ref(self.cconn)
         self.out = []          # (request label, outcome)
         self.early = []        # moments at which the client reported closed before its cleanup had happened
+        self.concurrent = False
+        self.windowed = False
         self.threads = []
 
     def observe(self, where):
         """"its disconnect hook has run exactly once by the time it reports closed" and what it held is released: looked at
         by the thread that uses the connection, between its own operations (so never in the middle of its own close())"""
         c = self.cconn
+        if self.concurrent:
+            return      # another thread of this side may be in the middle of close() right now: looked at again afterwards
         if c.closed and (self.csvc.disconnects != 1 or c._local_objects._dict):
             self.early.append((where, self.csvc.disconnects, len(c._local_objects._dict)))
 
@@ -193,16 +197,24 @@ def wl_two_threads_no_timeout(x):
     def other():
         x.req("t2", lambda: root.echo("two"), ("echo", "two"))
     t = S.SimThread(target=other, name="client2")
+    x.concurrent = True
+    if x.windowed:
+        S.current_sched().armed = True       # schedules are enumerated from here ...
     t.start()
     # the handler takes one virtual second: meanwhile client2 issues its request and parks behind this thread,
     # which holds the receive lock while it waits for its reply
     x.req("t1", lambda: root.slow(1.0, "one"), ("slow", "one"))
     t.join()
+    if x.windowed:
+        S.current_sched().armed = False      # ... to here
+    x.concurrent = False
+    x.observe("after-join")
     del root
 
 
 def wl_bg(x):
     c = x.cconn
+    x.concurrent = True
     bg = BgServingThread(c, callback=lambda: None)
     x.req("bg-1", lambda: c.root.echo(1), ("echo", 1))
     x.req("bg-2", lambda: c.root.echo(2), ("echo", 2))
@@ -210,6 +222,7 @@ def wl_bg(x):
         bg.stop()
     except AssertionError:
         pass
+    x.concurrent = False
 
 
 def wl_before_closed(x):
@@ -231,10 +244,11 @@ WORKLOADS = {"before-closed-hook": (wl_before_closed, 30), "sync": (wl_sync, 30)
              "two-threads-no-timeout": (wl_two_threads_no_timeout, None), "bg-thread": (wl_bg, 30)}
 
 
-def run(wname, cut, choices=(), state_fn=None, cut_fn=None, sync_points=False):
+def run(wname, cut, choices=(), state_fn=None, cut_fn=None, sync_points=False, windowed=False):
     wl, timeout = WORKLOADS[wname]
     gc.disable()
     x = Ctx(cut, timeout)
+    x.windowed = windowed
     box = {}
 
     def server():
@@ -247,6 +261,8 @@ def run(wname, cut, choices=(), state_fn=None, cut_fn=None, sync_points=False):
 
     def main():
         s = S.current_sched()
+        if windowed:
+            s.armed = False
         st = S.SimThread(target=server, name="server")
         st.start()
         wl(x)
@@ -515,11 +531,41 @@ def close_vs_serving(choices, want_state, cut_fn):
     return sch, {"violations": viol, "outcome_key": (sch.outcome, box.get("closed"), box.get("hooks"))}
 
 
+def eof_while_parking(off, kind):
+    """two client threads share the connection (no time-outs); the stream ends at byte `off` of the server's answers while
+    one thread owns the receive lock and the other is on its way to park behind it: on every schedule nobody is left parked"""
+    def run_fn(choices, want_state, cut_fn):
+        def state_fn(s):
+            return canon.state_key(s, [], canon.DEFAULT_PREFIXES)
+        sch, x, viol, box = run("two-threads-no-timeout", ("s2c", "read", off, kind), choices,
+                                state_fn if want_state else None, cut_fn, sync_points=True, windowed=True)
+        ok = (sch.outcome, tuple((o[0], o[1]) for o in x.out), box.get("closed"), box.get("hooks"))
+        return sch, {"violations": viol, "outcome_key": ok}
+    return run_fn
+
+
+def parking_cuts():
+    sch, x, viol, box = run("two-threads-no-timeout", None)
+    fr = frames(bytes(x.b._of.capture))
+    # the last answers (those of the two concurrent requests): at their first byte and inside their header
+    return [(st + d) for st, ln in fr[-2:] for d in (0, 3)]
+
+
 def chunks(xs, n):
     return [xs[i:i + n] for i in range(0, len(xs), n)]
 
 
 def replay(rep):
+    if str(rep.get("part", "")).startswith("eof-while-parking/"):
+        env.silence_unraisable()
+        off = int(rep["part"].split("@")[1])
+        a = eof_while_parking(off, "eof")(rep["choices"], False, None)[1]["violations"]
+        b = eof_while_parking(off, "eof")(rep["choices"], False, None)[1]["violations"]
+        if [v[0] for v in a] != [v[0] for v in b]:
+            print("REPLAY-DIVERGENCE", a, b)
+            return 2
+        print("replayed -> %r" % (a[:3],))
+        return 1 if a else 0
     env.silence_unraisable()
     outs = []
     for _ in range(2):
@@ -581,6 +627,15 @@ def main(tier, replay_obj=None):
     ex2.explore()
     res.add_explorer("close-vs-serving/pb%d" % (2 if tier == "quick" else 3), ex2)
     res.bounds["close-vs-serving"] = ex2.stats.bound_completed
+    # thorough only: the space is large (three threads, every lock/condition/transport step inside the window); the lost
+    # wake-up this looks for is also what C13/C14 explore with a reduced environment
+    for off in (parking_cuts()[::2] if tier == "thorough" else ()):
+        if res.violations:
+            break
+        ex3 = explore.ParallelExplorer(eof_while_parking(off, "eof"), bound=1, stop_on_violation=True, max_seconds=600)
+        ex3.explore()
+        res.add_explorer("eof-while-parking/s2c@%d" % off, ex3)
+        res.bounds["eof-while-parking/s2c@%d" % off] = ex3.stats.bound_completed
     res.assumptions = ["lenient reading of 'becomes closed': checked after one further serve(0) on each side (what any next use of the "
                        "connection does); the strict reading (closed the instant the failing call returns) is not demanded",
                        "one fault per run; deterministic default schedule for the fault runs; the close/close race is explored over schedules",
